@@ -1,5 +1,6 @@
 import BeffVerif.Props.C13
 import BeffVerif.Props.C13Inj
+import BeffVerif.Props.C13Tree
 open BeffVerif.C13
 #print axioms writer_digest_eq_spec
 #print axioms writer_digest_eq_spec_param
@@ -14,3 +15,7 @@ open BeffVerif.C13
 #print axioms u32be_inj
 #print axioms tok_prefix_free
 #print axioms tokens_injective
+#print axioms BeffVerif.C13T.h256_injective_closed
+#print axioms BeffVerif.C13T.same_stream_same_behaviour
+#print axioms BeffVerif.C13T.different_behaviour_different_stream
+#print axioms BeffVerif.C13T.different_behaviour_different_bytes
